@@ -608,3 +608,10 @@ func init() {
 		mutant{Name: "benign-literal-skip-spelt-out", Prop: "C05", File: "interp/cfg.go", Old: "\t\t\t\t\tif isInterfaceBin(dest.typ) {\n", New: "\t\t\t\t\tif dest.typ.cat == errorT || dest.typ.cat == valueT && dest.typ.rtype.Kind() == reflect.Interface {\n", Benign: true},
 	)
 }
+
+func init() {
+	addMutants(
+		// D140 reverted
+		mutant{Name: "nil-interface-value-looked-into", Prop: "C05", File: "interp/run.go", Old: "\t\t\tif ok && v.node == nil {\n\t\t\t\t// The zero valueInterface is the nil value of an interface type.\n\t\t\t\tok = false\n\t\t\t}\n", New: "", Rule: "R05.20", Key: "typeAssert/asserted-value#1/nil-node-tested-before-use"},
+	)
+}
